@@ -59,8 +59,11 @@ class Variables:
         # snowflake doesn't error when the variable doesn't exist
         self._variables.pop(name, None)
 
-    def inline_variables(self, sql: str) -> str:
+    def inline_variables(self, sql: str, escape_percent: bool = False) -> str:
         for name, value in self._variables.items():
+            if escape_percent:
+                # the statement is about to be %-formatted with its bound parameters, which a % in the value must survive
+                value = value.replace("%", "%%")
             # match the whole name only (not a prefix of a longer name) and insert the value verbatim
             sql = re.sub(rf"\${re.escape(name)}(?!\w)", lambda _m, v=value: v, sql, flags=re.IGNORECASE)
 
